@@ -1,3 +1,3 @@
-CONSTANT Want = {"C30_NoMiss", "C30_TerminateReturns", "C30_Within", "C30_MonotoneReturns", "C30_ReturnsOnChangeOnly", "C30_EveryUnlockAdvances"}
+CONSTANT Want = {"C30_NoMiss", "C30_TerminateReturns", "C30_NotifyReturns", "C30_Within", "C30_MonotoneReturns", "C30_ReturnsOnChangeOnly", "C30_EveryUnlockAdvances"}
 SPECIFICATION TSpec
 CHECK_DEADLOCK FALSE
